@@ -712,3 +712,73 @@ func copyKnown(m map[string]bool) map[string]bool {
 	}
 	return o
 }
+
+// inlineExprCall renders a call to a trivial helper — an unexported in-module
+// function that no rule names, or a local closure, whose body is a single
+// `return EXPR` — as EXPR with the parameters bound, so extracting such a
+// helper (or hoisting a closure) does not change any rendering.
+func (e *emitter) inlineExprCall(call *ast.CallExpr, d int) (string, bool) {
+	if e.inlineDepth >= 4 || d > 10 {
+		return "", false
+	}
+	// local closure
+	if v := e.fi.varOf(call.Fun); v != nil {
+		if sd := e.fi.singleDef(v); sd != nil && sd.idx < 0 {
+			if lit, ok := ast.Unparen(sd.rhs).(*ast.FuncLit); ok && len(lit.Body.List) == 1 {
+				if ret, ok := lit.Body.List[0].(*ast.ReturnStmt); ok && len(ret.Results) == 1 {
+					var syms []string
+					for _, a := range call.Args {
+						syms = append(syms, e.symd(a, d+1))
+					}
+					type sv struct {
+						v   *types.Var
+						old string
+						had bool
+					}
+					var saved []sv
+					i := 0
+					for _, f := range lit.Type.Params.List {
+						for _, n := range f.Names {
+							if pv, ok := e.fi.Info.Defs[n].(*types.Var); ok && i < len(syms) {
+								old, had := e.names[pv]
+								saved = append(saved, sv{pv, old, had})
+								e.names[pv] = syms[i]
+							}
+							i++
+						}
+					}
+					e.inlineDepth++
+					r := e.symd(ret.Results[0], d+1)
+					e.inlineDepth--
+					for _, sx := range saved {
+						if sx.had {
+							e.names[sx.v] = sx.old
+						} else {
+							delete(e.names, sx.v)
+						}
+					}
+					return r, true
+				}
+			}
+		}
+	}
+	cf := e.c.FnOf(e.fi.callee(call))
+	if cf == nil || cf.Obj.Exported() || emitRoots[cf.Name] || e.inlining[cf] || cf.Decl.Body == nil || len(cf.Decl.Body.List) != 1 {
+		return "", false
+	}
+	ret, ok := cf.Decl.Body.List[0].(*ast.ReturnStmt)
+	if !ok || len(ret.Results) != 1 {
+		return "", false
+	}
+	undo := e.bind(cf, call)
+	if e.inlining == nil {
+		e.inlining = map[*FuncInfo]bool{}
+	}
+	e.inlining[cf] = true
+	e.inlineDepth++
+	r := e.symd(ret.Results[0], d+1)
+	e.inlineDepth--
+	delete(e.inlining, cf)
+	undo()
+	return r, true
+}
